@@ -2,9 +2,10 @@ import ComposeVerif.Model.C11Normalize
 /-!
 # C11 — negative facts about the unchanged tree (concrete witnesses)
 
-`Normalize` is *not* total: an empty `pid:` (YAML null — accepted by the schema) reaches the unchecked
-assertion `n.(string)` of the namespace loop and panics (DESIGN §10 #2; the finding belongs to C01, the
-model reproduces it, and the correspondence stream replays it on the real code: corpus/C11/null-pid.json).
+`Normalize` is *not* total on arbitrary trees: its unchecked type assertions (`l.([]any)`, `e.(string)`,
+`b.(map[string]any)`, …) panic on shapes the schema would have rejected.  (The one shape the schema accepts —
+an empty `pid:` — was DESIGN §10 #2; it has been repaired in /repo by `fix: an empty pid … no longer panics in
+Normalize`, the model follows: `null_pid_is_ok`; corpus/C11/null-pid.json replays it on the real code.)
 -/
 namespace CV.C11
 open CV CV.Val
@@ -12,13 +13,23 @@ open CV CV.Val
 def nullPidDoc : KVs :=
   [("name", .str "proj"), ("services", .map [("a", .map [("image", .str "i"), ("pid", .null)])])]
 
+def badLinkDoc : KVs :=
+  [("name", .str "proj"), ("services", .map [("a", .map [("links", .seq [.int 1])])])]
+
 def isPanicAt (site : String) : Out KVs → Bool
   | .panic s => s == site
   | _ => false
 
-/-- negation of "`Normalize` never panics": witness `services: {a: {image: i, pid: }}` -/
+def isOk : Out KVs → Bool
+  | .ok _ => true
+  | _ => false
+
+/-- negation of "`Normalize` never panics" (on trees that did not go through the schema): witness `links: [1]` -/
 theorem normalize_not_total : ∃ d, isPanicAt "loader.Normalize" (normalize pathClean [] d) = true :=
-  ⟨nullPidDoc, by decide⟩
+  ⟨badLinkDoc, by decide⟩
+
+/-- after the repair an empty `pid:` is accepted -/
+theorem null_pid_is_ok : isOk (normalize pathClean [] nullPidDoc) = true := by decide
 
 def argsOfA (d : KVs) : Option Val :=
   match lookup "services" d with
